@@ -1,4 +1,5 @@
 import Proofs.Lemmas.ContainerAccess
+import Proofs.Lemmas.ContainerIndex
 /-
 C10 — Label-based access addresses exactly the labelled periods.
 
@@ -364,6 +365,145 @@ theorem add_variable_refuses_attribute_name (hc : cfg.addVarChecksAttrs = true) 
   by_cases hi : s.index.contains name = true
   · rw [if_pos hi]
   · rw [if_neg hi, if_pos (by rw [hc, ha]; rfl)]
+
+/-- No attribute-list entry carries the name of a variable. -/
+def NoShadow (s : Store) : Prop := ∀ name ∈ s.index, name ∉ s.attrs
+
+theorem NoShadow.mono {s s' : Store} (h : NoShadow s) (hi : s'.index = s.index)
+    (ha : ∀ a ∈ s'.attrs, a ∈ s.attrs ∨ a ∉ s.index) : NoShadow s' := by
+  intro name hn hat
+  rw [hi] at hn
+  rcases ha name hat with h1 | h1
+  · exact h name hn h1
+  · exact h1 hn
+
+theorem not_index_of_get_none {s : Store} {name : Name} (hg : s.get name = none) : name ∉ s.index := by
+  intro hc
+  obtain ⟨ser, hser⟩ := get_of_index hc
+  rw [hg] at hser
+  cases hser
+
+theorem mem_appendNew {xs : List Name} {x a : Name} (h : a ∈ appendNew xs x) : a ∈ xs ∨ a = x := by
+  unfold appendNew at h
+  split at h
+  · exact Or.inl h
+  · rcases List.mem_append.mp h with h' | h'
+    · exact Or.inl h'
+    · right; simpa using h'
+
+/-- A fresh container has no shadowed variable (it has no variable). -/
+theorem no_shadow_init (span : List Nat) (kind : SpanKind) (strict : Bool) : NoShadow (init span kind strict) := by
+  intro name hn
+  simp [init, Store.index] at hn
+
+/-- **With the candidate fix, no operation can make an attribute shadow a variable** (`add_variable` refuses
+    attribute names, `add_attribute` and `__setattr__` refuse / never reuse variable names). -/
+theorem no_shadow_step (hc : cfg.addVarChecksAttrs = true) {s : Store} (h : NoShadow s) (op : Op) :
+    NoShadow (step cfg s op).1 := by
+  cases op with
+  | addVariable name v dtype =>
+    rcases addVariable_cases cfg s name v dtype with ⟨e, he⟩ | ⟨a, _, _, _, hat, he⟩
+    · rw [show step cfg s (.addVariable name v dtype) = addVariable cfg s name v dtype from rfl, he]; exact h
+    · rw [show step cfg s (.addVariable name v dtype) = addVariable cfg s name v dtype from rfl, he]
+      have hna : name ∉ s.attrs := by
+        rw [hc] at hat
+        simpa using hat
+      intro nm hnm
+      simp only [Store.index, List.map_append, List.map_cons, List.map_nil, List.mem_append,
+        List.mem_singleton] at hnm
+      rcases hnm with h1 | h1
+      · exact h nm h1
+      · rw [h1]; exact hna
+  | addAttribute name =>
+    simp only [step, addAttribute]
+    split
+    · exact h
+    · rename_i hi
+      split
+      · exact h
+      · refine h.mono rfl (fun a ha => ?_)
+        rcases List.mem_append.mp ha with h1 | h1
+        · exact Or.inl h1
+        · right; simp at h1; rw [h1]; simpa using hi
+  | setAttr name v alts =>
+    simp only [step, setAttr]
+    split
+    · exact h
+    · cases hg : s.get name with
+      | some ser => exact h.mono (assignWhole_index _ _ _ _) (fun a ha => Or.inl ((assignWhole_attrs _ _ _ _).1 ▸ ha))
+      | none =>
+        have hni := not_index_of_get_none hg
+        dsimp only
+        split
+        · refine h.mono rfl (fun a ha => ?_)
+          rcases mem_appendNew ha with h1 | h1
+          · exact Or.inl h1
+          · right; rw [h1]; exact hni
+        · split
+          · exact h
+          · refine h.mono rfl (fun a ha => ?_)
+            rcases List.mem_append.mp ha with h1 | h1
+            · exact Or.inl h1
+            · right; simp at h1; rw [h1]; exact hni
+  | setItem name v =>
+    exact h.mono (setItem_index _ _ _) (fun a ha => Or.inl ((setItem_attrs _ _ _).1 ▸ ha))
+  | setPos name i v =>
+    exact h.mono (setPos_index _ _ _ _) (fun a ha => Or.inl ((setPos_attrs _ _ _ _).1 ▸ ha))
+  | setPosSlice name a b st v =>
+    exact h.mono (setPosSlice_index _ _ _ _ _ _) (fun x ha => Or.inl ((setPosSlice_attrs _ _ _ _ _ _).1 ▸ ha))
+  | setLabel name l v =>
+    exact h.mono (setLabel_index _ _ _ _) (fun a ha => Or.inl ((setLabel_all _ _ _ _).2.2.2.1 ▸ ha))
+  | setLabelSlice name a b st v =>
+    exact h.mono (setLabelSlice_index _ _ _ _ _ _) (fun x ha => Or.inl ((setLabelSlice_all _ _ _ _ _ _).2.2.2.1 ▸ ha))
+  | replaceValues kvs =>
+    exact h.mono (replaceValues_index _ _) (fun a ha => Or.inl ((replaceValues_attrs _ _).1 ▸ ha))
+  | setValues v alts =>
+    simp only [step, setValues]
+    split
+    · exact h
+    · cases hg : s.get "values" with
+      | some ser => exact h.mono (assignWhole_index _ _ _ _) (fun a ha => Or.inl ((assignWhole_attrs _ _ _ _).1 ▸ ha))
+      | none =>
+        have hni := not_index_of_get_none hg
+        dsimp only
+        have hi := setValuesCore_index (cfg := cfg) s v
+        have hat := (setValuesCore_all (cfg := cfg) s v).2.2.1
+        generalize setValuesCore cfg s v = r at hi hat
+        obtain ⟨s', o⟩ := r
+        cases o with
+        | raised e => exact h.mono hi (fun a ha => Or.inl (hat ▸ ha))
+        | ok =>
+          refine h.mono hi (fun a ha => ?_)
+          dsimp only at ha hat
+          rcases mem_appendNew ha with h1 | h1
+          · exact Or.inl (hat ▸ h1)
+          · right; rw [h1]; exact hni
+  | setStrict b alts =>
+    simp only [step, setStrict]
+    split
+    · exact h
+    · cases hg : s.get "strict" with
+      | some ser => exact h.mono (assignWhole_index _ _ _ _) (fun a ha => Or.inl ((assignWhole_attrs _ _ _ _).1 ▸ ha))
+      | none =>
+        have hni := not_index_of_get_none hg
+        refine h.mono rfl (fun a ha => ?_)
+        rcases mem_appendNew ha with h1 | h1
+        · exact Or.inl h1
+        · right; rw [h1]; exact hni
+  | badKey t => exact h
+
+/-- … hence after every history. -/
+theorem no_shadow_history (hc : cfg.addVarChecksAttrs = true) {s : Store} (h : NoShadow s) (ops : List Op) :
+    NoShadow (run cfg s ops) := by
+  induction ops generalizing s with
+  | nil => exact h
+  | cons op ops ih => exact ih (no_shadow_step hc h op)
+
+/-- **The attribute path, full strength** (same configuration hypothesis): in every store reached from a fresh
+    container — or from any store without shadowed variables — `obj.name` and `obj[name]` read the same series. -/
+theorem access_paths_agree_attribute {s : Store} (h : NoShadow s) {name : Name} (hi : name ∈ s.index) :
+    getAttr s name = getItem s name :=
+  access_paths_agree_attribute_partial hi (by simpa using h name hi)
 
 /-- Non-vacuity: the witness history under the fixed configuration — the variable is refused, `obj.P` and
     `obj['P']` cannot disagree because there is no variable `P`. -/
